@@ -584,8 +584,9 @@ string StripAnsiEscapeCodes(const string& in) {
     if (in[i + 1] != '[') continue;  // Not a CSI.
     i += 2;
 
-    // Skip everything up to and including the next [a-zA-Z].
-    while (i < in.size() && !islatinalpha(in[i]))
+    // Skip everything up to and including the final byte of the sequence:
+    // any of 0x40-0x7E, which besides the letters are @ [ \ ] ^ _ ` { | } ~.
+    while (i < in.size() && !(in[i] >= 0x40 && in[i] <= 0x7e))
       ++i;
   }
   return stripped;
